@@ -27,6 +27,9 @@ func init() {
 	register(&Rule{ID: "R18.globals-locked", Props: []string{"C18"}, Floor: 1,
 		Text: "lStatePool.New installs on the globals table, on every path to its return, a metatable whose __newindex raises",
 		Run:  ruleGlobalsLocked})
+	register(&Rule{ID: "R18.env-immutable", Props: []string{"C18"}, Floor: 6,
+		Text: "the pooled interpreter carries nothing from one script to the next: besides the lock on new globals, every table a script can reach from its globals (the module tables tile38, json, table, math, string, os and the globals table itself for existing names) must be protected against writes by a metatable or a read-only proxy",
+		Run:  ruleEnvImmutable})
 	register(&Rule{ID: "R18.per-call-globals", Props: []string{"C18", "C07"}, Floor: 3,
 		Text: "for every luaSetRawGlobals call that sets per-call globals on a pooled Lua state, every path from the set to a point where the state returns to the pool (a direct Put, or a return while a deferred Put is pending) passes a luaSetRawGlobals that resets the same keys to nil (directly, deferred, or in a deferred literal); an owner that receives the state (whereevalT) clears the keys before Put in its Close",
 		Run:  rulePerCallGlobals})
@@ -262,7 +265,8 @@ func ruleSandboxEnv(c *Ctx) {
 		}
 		// opener: func(*lua.LState) int declared at package level
 		sig := f.Type().(*types.Signature)
-		if sig.Params().Len() == 1 && isNamedType(sig.Params().At(0).Type(), luaPath, "LState") && sig.Results().Len() == 1 {
+		if sig.Params().Len() == 1 && isNamedType(sig.Params().At(0).Type(), luaPath, "LState") && sig.Results().Len() == 1 &&
+			types.Identical(sig.Results().At(0).Type(), types.Typ[types.Int]) {
 			openers = append(openers, f.Pkg().Name()+"."+f.Name())
 		}
 		return true
@@ -584,13 +588,20 @@ func ruleGlobalsLocked(c *Ctx) {
 // per-call globals
 
 func isSetRawGlobals(f *types.Func) bool {
-	return isFunc(f, modPath+"/internal/server", "luaSetRawGlobals")
+	return isFunc(f, modPath+"/internal/server", "luaSetRawGlobals") || isFunc(f, modPath+"/internal/server", "luaSetEvalCmd")
 }
 
 // globalsLit: keys of the map literal argument and whether all values are lua.LNil.
 func globalsLit(info *types.Info, call *ast.CallExpr) (keys []string, allNil bool, ok bool) {
 	if len(call.Args) != 2 {
 		return nil, false, false
+	}
+	if isFunc(callee(info, call), modPath+"/internal/server", "luaSetEvalCmd") {
+		// the eval command kept in the registry: one pseudo key
+		if se, ok := ast.Unparen(call.Args[1]).(*ast.SelectorExpr); ok && se.Sel.Name == "LNil" {
+			return []string{"<eval command>"}, true, true
+		}
+		return []string{"<eval command>"}, false, true
 	}
 	cl, isLit := ast.Unparen(call.Args[1]).(*ast.CompositeLit)
 	if !isLit {
@@ -804,54 +815,101 @@ func ruleClassBinding(c *Ctx) {
 		c.und("tables", 0, "%s", ct.Err)
 		return
 	}
-	srv := c.Pkgs["internal/server"]
-	// 1. who reads the EVAL_CMD global, who sets it
-	var readers, setters []string
-	var setFromCommand = true
-	for _, fn := range c.AllFuncs("internal/server") {
-		info := fn.Info()
-		ast.Inspect(fn.Decl.Body, func(n ast.Node) bool {
+	// 1. the class selector is not script-writable: it is not read from the globals table, it is written
+	//    only by cmdEvalUnified, from msg.Command()
+	newFn := c.Func("internal/server", "lStatePool", "New")
+	get := c.Func("internal/server", "", "luaGetEvalCmd")
+	set := c.Func("internal/server", "", "luaSetEvalCmd")
+	if newFn == nil {
+		c.und("anchors", 0, "lStatePool.New not found")
+		return
+	}
+	usesGlobals := func(fi *FuncInfo) bool {
+		hit := false
+		ast.Inspect(fi.Decl.Body, func(n ast.Node) bool {
 			switch x := n.(type) {
 			case *ast.CallExpr:
-				if f := callee(info, x); isMethod(f, luaPath, "LState", "GetGlobal") && len(x.Args) == 1 {
-					if s, ok := constString(info, x.Args[0]); ok && s == "EVAL_CMD" {
-						readers = append(readers, fn.Obj.Name())
-					}
+				if f := callee(fi.Info(), x); isMethod(f, luaPath, "LState", "GetGlobal") {
+					hit = true
 				}
-			case *ast.KeyValueExpr:
-				if s, ok := constString(info, x.Key); ok && s == "EVAL_CMD" {
-					if se, ok := ast.Unparen(x.Value).(*ast.SelectorExpr); ok && se.Sel.Name == "LNil" {
-						return true
-					}
-					setters = append(setters, fn.Obj.Name())
-					// value must be lua.LString(msg.Command())
-					okv := false
-					ast.Inspect(x.Value, func(y ast.Node) bool {
-						if e, ok := y.(ast.Expr); ok && isCommandCall(info, e) {
-							okv = true
-						}
-						return true
-					})
-					if !okv {
-						setFromCommand = false
+			case *ast.SelectorExpr:
+				if x.Sel.Name == "GlobalsIndex" {
+					if o := fi.Info().ObjectOf(x.Sel); o != nil && o.Pkg() != nil && o.Pkg().Path() == luaPath {
+						hit = true
 					}
 				}
 			}
 			return true
 		})
+		return hit
 	}
-	_ = srv
+	// the value passed to luaTile38Call as the class selector, traced to its source inside New
+	info := newFn.Info()
+	selectorFromGlobals := false
+	nCalls := 0
+	ast.Inspect(newFn.Decl.Body, func(n ast.Node) bool {
+		call, ok := n.(*ast.CallExpr)
+		if !ok || !isMethod(callee(info, call), modPath+"/internal/server", "Server", "luaTile38Call") || len(call.Args) == 0 {
+			return true
+		}
+		nCalls++
+		return true
+	})
+	// every literal of New that produces the selector (the one assigning a string result named evalCmd, or any
+	// literal calling GetGlobal) must not read script-visible globals to obtain a string
+	ast.Inspect(newFn.Decl.Body, func(n ast.Node) bool {
+		call, ok := n.(*ast.CallExpr)
+		if !ok {
+			return true
+		}
+		if f := callee(info, call); isMethod(f, luaPath, "LState", "GetGlobal") {
+			selectorFromGlobals = true
+		}
+		return true
+	})
+	c.check(nCalls >= 2 && !selectorFromGlobals, "selector-not-script-writable", newFn.Decl.Pos(),
+		"the tile38.call closures do not read script-visible globals; the eval command comes from the registry",
+		"the eval command that selects the script class is read from a Lua global: a script can overwrite a global that exists during its call (EVAL_CMD = 'eval' inside EVALRO) and run writes from a read-only script")
+	if get == nil || set == nil {
+		c.bad("registry-accessors", newFn.Decl.Pos(), "luaGetEvalCmd/luaSetEvalCmd not found: the eval command is not kept out of the script's reach")
+	} else {
+		c.check(!usesGlobals(get) && !usesGlobals(set), "registry-accessors", get.Decl.Pos(), "the accessors use the registry, not the globals table", "the eval command accessors touch the globals table")
+	}
+	var setters []string
+	setFromCommand := true
+	for _, fn := range c.AllFuncs("internal/server") {
+		finfo := fn.Info()
+		ast.Inspect(fn.Decl.Body, func(n ast.Node) bool {
+			call, ok := n.(*ast.CallExpr)
+			if !ok || set == nil || callee(finfo, call) != set.Obj || len(call.Args) != 2 {
+				return true
+			}
+			if se, ok := ast.Unparen(call.Args[1]).(*ast.SelectorExpr); ok && se.Sel.Name == "LNil" {
+				return true
+			}
+			setters = append(setters, fn.Obj.Name())
+			okv := false
+			ast.Inspect(call.Args[1], func(y ast.Node) bool {
+				if e, ok := y.(ast.Expr); ok && isCommandCall(finfo, e) {
+					okv = true
+				}
+				return true
+			})
+			if !okv {
+				setFromCommand = false
+			}
+			return true
+		})
+	}
 	c.check(len(setters) == 1 && setters[0] == "cmdEvalUnified" && setFromCommand, "eval-cmd-setter", 0,
-		"EVAL_CMD is set only by cmdEvalUnified, from msg.Command()", fmt.Sprintf("EVAL_CMD is set by %v (from msg.Command(): %v)", setters, setFromCommand))
-	c.check(len(readers) >= 1 && allEq(readers, "New"), "eval-cmd-reader", 0,
-		"EVAL_CMD is read only by the tile38.call/pcall closures of lStatePool.New", fmt.Sprintf("EVAL_CMD is read by %v", readers))
+		"the eval command is set only by cmdEvalUnified, from msg.Command()", fmt.Sprintf("the eval command is set by %v (from msg.Command(): %v)", setters, setFromCommand))
 	// 2. luaTile38Call's evalcmd switch groups = the LT arms of the eval family
 	ltc := c.Func("internal/server", "Server", "luaTile38Call")
 	if ltc == nil {
 		c.und("luaTile38Call", 0, "not found")
 		return
 	}
-	info := ltc.Info()
+	info = ltc.Info()
 	var sw *strSwitch
 	for _, ss := range stringSwitches(ltc, func(e ast.Expr) bool {
 		id, ok := ast.Unparen(e).(*ast.Ident)
@@ -902,4 +960,68 @@ func allEq(ss []string, v string) bool {
 		}
 	}
 	return true
+}
+
+// ruleEnvImmutable: every module table placed in the script environment has a write barrier.
+func ruleEnvImmutable(c *Ctx) {
+	newFn := c.Func("internal/server", "lStatePool", "New")
+	if newFn == nil {
+		c.und("anchors", 0, "lStatePool.New not found")
+		return
+	}
+	info := newFn.Info()
+	// tables that receive a metatable with __newindex in New (by the variable they are bound to or the expression)
+	protected := map[string]bool{}
+	ast.Inspect(newFn.Decl.Body, func(n ast.Node) bool {
+		call, ok := n.(*ast.CallExpr)
+		if !ok || !isMethod(callee(info, call), luaPath, "LState", "SetMetatable") || len(call.Args) != 2 {
+			return true
+		}
+		target := exprStr(call.Args[0])
+		if strings.Contains(target, "GlobalsIndex") {
+			protected["<globals>:new-keys"] = true
+		} else {
+			protected[target] = true
+		}
+		return true
+	})
+	modules := []string{"tile38", "json", "table", "math", "string", "os"}
+	for _, m := range modules {
+		// a module is protected if New installs a metatable on its table, or registers a proxy for it
+		ok := false
+		for t := range protected {
+			if strings.Contains(t, `"`+m+`"`) || strings.Contains(t, m+"Tbl") || strings.Contains(t, m+"Proxy") {
+				ok = true
+			}
+		}
+		if ok {
+			c.ok("module/"+m, newFn.Decl.Pos(), true, "the module table has a write barrier")
+		} else {
+			c.bad("module/"+m, newFn.Decl.Pos(), "the %s table is writable by scripts and lives in the pooled interpreter: a script can stash its KEYS/ARGV in it (or replace its functions) for the next script that gets the same state", m)
+		}
+	}
+	// existing globals: the __newindex lock only fires for absent keys, so scripts must not run with the
+	// interpreter's shared global table as their environment
+	shared := 0
+	for _, fn := range c.AllFuncs("internal/server") {
+		finfo := fn.Info()
+		ast.Inspect(fn.Decl.Body, func(n ast.Node) bool {
+			cl, ok := n.(*ast.CompositeLit)
+			if !ok || !isNamedType(finfo.Types[cl].Type, luaPath, "LFunction") {
+				return true
+			}
+			for _, e := range cl.Elts {
+				if kv, ok := e.(*ast.KeyValueExpr); ok {
+					if id, ok := kv.Key.(*ast.Ident); ok && id.Name == "Env" {
+						if se, ok := ast.Unparen(kv.Value).(*ast.SelectorExpr); ok && se.Sel.Name == "Env" {
+							shared++
+						}
+					}
+				}
+			}
+			return true
+		})
+	}
+	c.check(shared == 0, "globals/existing-names", newFn.Decl.Pos(), "scripts do not run with the interpreter's shared global table as their environment",
+		fmt.Sprintf("scripts run with the shared global table as their environment (%d function values built with Env: state.Env) and its lock only refuses new names: a script can overwrite or remove an existing global (tile38 = nil) and the change stays in the pooled interpreter", shared))
 }
